@@ -172,6 +172,23 @@ func ProcessDeposit(spec *common.Spec, epc *common.EpochsContext, state common.B
 		} else {
 			epc.ValidatorPubkeyCache = pc
 		}
+		// A context with loaded stake data caches the effective balance of every validator of the state:
+		// keep it as long as the registry. The slice is shared with clones of the context, so never append in place.
+		if epc.CurrentEpoch != nil && uint64(len(epc.EffectiveBalances)) == valCount {
+			validators, err = state.Validators()
+			if err != nil {
+				return err
+			}
+			newVal, err := validators.Validator(valIndex)
+			if err != nil {
+				return err
+			}
+			effBalance, err := newVal.EffectiveBalance()
+			if err != nil {
+				return err
+			}
+			epc.EffectiveBalances = append(epc.EffectiveBalances[:valCount:valCount], effBalance)
+		}
 	} else {
 		// Increase balance by deposit amount
 		bals, err := state.Balances()
